@@ -38,7 +38,10 @@ def _drive(recs, meta, n, scene_list, rng, al, names, pinned):
             fo, fg = NW.float_flags(A, B, TOL * L / lift[0])
             for X, Y in ((A, B), (B, A)):
                 clsX, clsY = rng.choice(X.classes()), rng.choice(Y.classes())
-                for name in names:
+                shared = (X.build(lift, clsX), Y.build(lift, clsY))      # all algorithms query the same collider objects
+                order = list(names) + [rng.choice(names)]      # random order, one algorithm asked twice
+                rng.shuffle(order)
+                for name in order:
                     call, proxy, scalar, only, helper = al[name]
                     if only is not None and (clsX not in only or clsY not in only or X.margin or Y.margin):
                         continue
@@ -48,7 +51,7 @@ def _drive(recs, meta, n, scene_list, rng, al, names, pinned):
                     rid = f"d{n}"
                     rec, out = NW.measure_distance(rid, X, Y, lift, call, TOL, clsX, clsY,
                                                    extra={"floatOverlap": fo and not scalar, "floatGap": fg, "fn": name, "helperSame": True},
-                                                   proxy=proxy, scalar_only=scalar, zero_exact=False)
+                                                   proxy=proxy, scalar_only=scalar, zero_exact=False, colliders=shared)
                     if scalar and not rec["exact"] and rec["exc"] == "none" and rec["finite"]:
                         # scalar-only algorithms on round shapes: judged against the certified Jolt reference (or not at all)
                         if not rec.get("refOK", False):
